@@ -2,13 +2,14 @@ package main
 
 import (
 	"fmt"
+	"reflect"
 	"strings"
 
 	"github.com/6tail/lunar-go/HolidayUtil"
 	"github.com/6tail/lunar-go/calendar"
 )
 
-// c09 sessions: the sessions TLC enumerates from MC_Session (Create / Handle / SetSect / Fix / Bad) are executed
+// c09 sessions: the sessions TLC enumerates from MC_Session (Create / Handle / SetSect / Fix / Rename / Bad / Write) are executed
 // on real objects; after every call every live object is observed in full.  Nothing is compared here.
 
 var sessInst = [][6]int{{2031, 5, 2, 10, 0, 0}, {2024, 2, 10, 23, 30, 0}, {1582, 10, 4, 23, 10, 0}}
@@ -137,6 +138,8 @@ func c09Sessions(c *ctx) {
 					HolidayUtil.Fix(nil, sessFix(x))
 				case "Rename":
 					HolidayUtil.Fix(sessNames(x), "")
+				case "Write":
+					scribbleExcept(objs[x-1], false, reflect.TypeOf(&calendar.EightChar{}))
 				case "Bad":
 					if x == 1 {
 						calendar.NewSolar(2023, 2, 30, 0, 0, 0)
